@@ -234,8 +234,10 @@ func VerifC13Inc(h *verifrt.H) {
 func VerifC13WellFormed(h *verifrt.H) {
 	body := []byte{0x82, 0xa1, 'a', 0x01, 0xa1, 'l', 0x91, 0x02}
 	val := h.Bytes("value", h.Len("valueLen", 0, h.Param("maxValue", 3)))
-	kinds := []OpKind{OpSet, OpSet, OpAppend, OpPrepend, OpMerge, OpRemoveVal, OpInc, OpSet}
-	paths := []string{"a", "n", "l", "l", "", "l", "a", "l[0]"}
+	// INC appears three times: on an existing number, on a missing final field and on a missing
+	// intermediate chain (the last two create the field from the delta's own bytes)
+	kinds := []OpKind{OpSet, OpSet, OpAppend, OpPrepend, OpMerge, OpRemoveVal, OpInc, OpSet, OpInc, OpInc}
+	paths := []string{"a", "n", "l", "l", "", "l", "a", "l[0]", "n", "m.x"}
 	k := h.Choose("op", len(kinds))
 	out, err := Apply(body, []Op{{Kind: kinds[k], Path: paths[k], Value: val}})
 	if err != nil {
